@@ -1,4 +1,5 @@
 import RpcVerif.Model.Pool
+import RpcVerif.Model.PoolInv
 import RpcVerif.Model.Proto
 /-
   Executable side of P for the correspondence: the harness's script actions as sequences of
@@ -140,7 +141,7 @@ def poolStep (st : Option Run) (toks : List String) : Option Run × String :=
     | none => (none, "bad-op")
     | some r =>
       match action r toks with
-      | some r' => (some r', obs r')
+      | some r' => (some r', if checkInv r'.s then obs r' else "INVARIANT-VIOLATED " ++ obs r')
       | none => (some r, "bad-op")
 
 end RpcVerif.P
